@@ -3,7 +3,7 @@
 # Confirms a seeded change in a scratch worktree of /repo's HEAD: demo passes without the change, fails with it,
 # the touched packages still build and their existing tests still pass. Prints a JSON object.
 prop=$1; x=$2
-src=/verif/seeded_staging/$prop/$x
+src=${SEED_BASE:-/verif/seeded_staging}/$prop/$x
 wt=/var/tmp/seedconfirm_$prop$x
 export GOFLAGS=-mod=mod GOPROXY=off GOSUMDB=off GOTOOLCHAIN=local
 git -C /repo worktree remove --force $wt >/dev/null 2>&1
